@@ -559,11 +559,12 @@ impl BState {
                 let is_rt = |x: &(u64, i128, i64, i64)| x.0 == libc::CLOCK_REALTIME as u64 && x.1 == centre;
                 let is_mono = |x: &(u64, i128, i64, i64)| x.0 == libc::CLOCK_MONOTONIC_COARSE as u64;
                 let mut pair = None;
+                // (the last such pair: a realtime clock slewed to a standstill can return the same
+                // value twice, and an answer is computed from the latest readings taken)
                 for (pos, r) in obs.reads.iter().enumerate() {
                     if is_rt(r) {
                         if let Some(m) = obs.reads[pos + 1..].iter().find(|x| is_mono(x)) {
                             pair = Some((*r, *m));
-                            break;
                         }
                     }
                 }
@@ -587,6 +588,9 @@ impl BState {
             }
         }
         let (real_v, mono_v) = (rt.1, mono.1);
+        if std::env::var_os("VERIF_DEBUG_RANK").is_some() {
+            eprintln!("client {ci} kind {kind} reads {:?} chosen rt {:?} mono {:?} res {:?}", obs.reads, rt, mono, res);
+        }
         // which record explains the result?
         let candidates: Vec<PRecord> = match known.or(self.synthetic_rec) {
             Some(r) => vec![r],
